@@ -341,6 +341,11 @@ func join(a, b context, node parse.Node, nodeName string) context {
 	a.attr.names = joinNames(a.attr.name, b.attr.name, a.attr.names, b.attr.names)
 	if a.attr.value != b.attr.value || b.attr.ambiguousValue {
 		a.attr.ambiguousValue = true
+		if b.attr.dynamicStart && (!a.attr.dynamicStart || strings.ContainsAny(html.UnescapeString(a.attr.value), "/?#")) {
+			// Static text that follows is checked against the value of a branch in which
+			// the attribute value starts with an action (see validateTextAfterAction).
+			a.attr.value = b.attr.value
+		}
 	}
 	a.attr.dynamic = a.attr.dynamic || b.attr.dynamic
 	a.attr.dynamicStart = a.attr.dynamicStart || b.attr.dynamicStart
